@@ -92,9 +92,14 @@ def _sspor_case(ctx, rng, idx):
             elif r < 0.8:
                 post.append(["score"])
             elif r < 0.9:
-                post.append(["reconstruction_error"])
+                # the error curve over the default range, an explicit one, or one that goes past the number of sensors
+                # (allowed: the method only warns that performance may be poor)
+                post.append(["reconstruction_error", rng.choice([None, list(range(1, rng.randint(2, nf + 1))),
+                                                                  list(range(1, nf + rng.randint(2, 4))), [nf, 1, 2][: rng.randint(1, 3)]])])
             else:
                 post.append(["predict"])
+    if rng.random() < 0.2:
+        post.append(["reconstruction_error", list(range(1, nf + rng.randint(2, 4)))])
     desc["post"] = post
     return desc
 
@@ -139,7 +144,7 @@ def _run_sspor(ctx, desc, rng=None):
             elif op[0] == "score":
                 model.score(X)
             elif op[0] == "reconstruction_error":
-                model.reconstruction_error(X)
+                model.reconstruction_error(X, **({} if len(op) < 2 or op[1] is None else {"sensor_range": np.array(op[1])}))
             else:
                 model.predict(X[:, model.get_selected_sensors()])
         except Exception:
